@@ -212,4 +212,6 @@ def run(col, configs, tier):
         guarded(col, rule_defaults, facts)
         guarded(col, I.rule_sizes, facts)
         guarded(col, X.rule_buffer_allowance, facts)
+        guarded(col, X.rule_exponent_allowance, facts)
+        guarded(col, X.rule_debug_buffer_belief, facts)
         guarded(col, F.rule_entry_validation, facts)
